@@ -196,7 +196,13 @@ def run(tier):
             check(rep, "C17.args", d, f, BD + "::insert", "registration replaces", got, alts, "registration must assign the handler under the key of D...")
     f = get(BD, "erase")
     if f:
-        check(rep, "C17.args", d, f, BD + "::erase", "erases the key of D...", canon_fn(d, f), [["m_callback_map.erase(make_key())"]], "must erase exactly that key")
+        body_txt = " ; ".join(canon_fn(d, f))
+        if ("lower_bound" in body_txt or "upper_bound" in body_txt) and "erase(" in body_txt and not re.search(r"first\s*==|==\s*[^;]*first|key_comp|!\s*\(.*<.*first", body_txt):
+            rep.violates("C17.args", BD + "::erase", "erases the key of D...", where=d.where(f),
+                         detail="the entry found by lower_bound/upper_bound is erased without testing that its key equals the key of D...: erasing an unregistered tuple "
+                                "removes the NEXT registered handler (`%s`)" % body_txt[:160])
+        else:
+            check(rep, "C17.args", d, f, BD + "::erase", "erases the key of D...", canon_fn(d, f), [["m_callback_map.erase(make_key())"]], "must erase exactly that key")
     f = get(BD, "dispatch")
     if f:
         got = canon_fn(d, f)
